@@ -166,7 +166,9 @@ func Run() {
 		_, _ = scope.Get(slip.Symbol(stdOutput)).(io.Writer).Write([]byte("\nBye\n"))
 		replReader.stop()
 	}()
-	TheHistory.SetLimit(1000) // initial value that the user can replace by setting *repl-history-limit*
+	if !TheHistory.limitSet {
+		TheHistory.SetLimit(1000) // initial value that the user can replace by setting *repl-history-limit*
+	}
 	TheHistory.Load(historyFilename)
 	initStash()
 
